@@ -9,8 +9,10 @@ OPNAMES = ["BR", "ADD", "LD", "ST", "JSR", "AND", "LDR", "STR", "RTI", "NOT", "L
 
 
 def _wpath(name):
-    os.makedirs(WORK, exist_ok=True)
-    return os.path.join(WORK, name)
+    # per-process scratch directory: two checks (or two runs of one check) never share file names
+    d = os.path.join(WORK, "p%d" % os.getpid())
+    os.makedirs(d, exist_ok=True)
+    return os.path.join(d, name)
 
 
 # --------------------------------------------------------------------------------------------
